@@ -5,7 +5,7 @@
 (* returns up to and including the next LF, nothing is lost, duplicated or *)
 (* reordered, and what the caller sees does not depend on the segmentation.*)
 (***************************************************************************)
-EXTENDS UbxSocket, TLC
+EXTENDS UbxSocket, TLC, FiniteSets
 
 CONSTANTS Bytes, BufSizes, MaxCalls
 
@@ -32,10 +32,13 @@ CallRead == /\ s.pend = "none" /\ ncalls < MaxCalls
             /\ ncalls' = ncalls + 1 /\ UNCHANGED bufsize
 CallLine == /\ s.pend = "none" /\ ncalls < MaxCalls
             /\ s' = StartLine(s) /\ ncalls' = ncalls + 1 /\ UNCHANGED bufsize
+CallWrite == /\ s.pend = "none" /\ ncalls < MaxCalls
+             /\ \E d \in {<<>>, <<181, 98>>} : s' = StartWrite(s, d)
+             /\ ncalls' = ncalls + 1 /\ UNCHANGED bufsize
 Recv == NeedsRecv(s) /\ s' = DoRecv(s, bufsize) /\ UNCHANGED <<bufsize, ncalls>>
-Done == /\ s.pend \in {"read", "line"} /\ ~NeedsRecv(s) /\ s' = Complete(s)
+Done == /\ s.pend \in {"read", "line", "write"} /\ ~NeedsRecv(s) /\ s' = Complete(s)
         /\ UNCHANGED <<bufsize, ncalls>>
-Next == Ctor \/ CallRead \/ CallLine \/ Recv \/ Done
+Next == Ctor \/ CallRead \/ CallLine \/ CallWrite \/ Recv \/ Done
 Spec == Init /\ [][Next]_vars
 
 \* nothing lost, duplicated or reordered: what was returned + buffer + in flight is always the byte sequence
@@ -50,7 +53,9 @@ ResultsAsPrescribed ==
     \A i \in 1..Len(s.results) :
         LET p == PosBefore(s.results, i)
             c == s.calls[i]
-        IN s.results[i] = IF c.op = "read" THEN ExpectRead(Bytes, p, c.n) ELSE ExpectLine(Bytes, p)
+        IN s.results[i] = IF c.op = "read" THEN ExpectRead(Bytes, p, c.n) ELSE IF c.op = "write" THEN <<>> ELSE ExpectLine(Bytes, p)
+\* outbound data: exactly the data of the write calls, in order; writing never issues a recv
+WritesPassThrough == Len(s.sent) = Cardinality({i \in 1..Len(s.calls) : s.calls[i].op = "write"})
 \* the buffer never holds more than one receive beyond what was asked for
 BufferBounded == Len(s.buf) <= 4 + (CHOOSE m \in BufSizes : \A x \in BufSizes : x <= m) + Len(Bytes)
 =============================================================================
